@@ -11,7 +11,10 @@
 // or two extending templates that override its blocks, block k - which it renders after the include -
 // with parent() or not at all; the block override of the template next to the layout) x blocks of an
 // included template that extends (its parent defines / it overrides / it overrides with parent() a
-// block named like the includer's block k). Every program is rendered by the real engine and
+// block named like the includer's block k) x history (none; an earlier render in the same process - on the
+// same engine or on another one - that fails inside an include: a with-hash whose 2nd / 3rd entry divides
+// by zero, uses an unknown filter or calls a failing function, a target that fails, is missing, includes a
+// missing template or fails after an include of its own). Every program is rendered by the real engine and
 // compared with the reference model of model.go (transcribed from the property statement).
 package main
 
@@ -97,16 +100,16 @@ type cas struct {
 // context that defines a, b, c, d, q (Pa … Pq).
 const (
 	hNone              = iota
-	hDiv2                     // T = the case's own target; the 2nd entry of the with-hash is `1 / 0`
-	hDiv3                     // … the 3rd entry
-	hFlt2                     // 2nd entry `'x'|nosuch`
-	hFlt3                     // 3rd entry
-	hFn2                      // 2nd entry `boom()` (callback error)
-	hFn3                      // 3rd entry
-	hTmplFails                // T fails at render (callback error)
-	hMissing                  // T does not exist (no `ignore missing`)
-	hNestedMissing            // T exists and includes a template that does not exist
-	hFailsAfterInclude        // T includes the case's own target (that include completes) and fails afterwards
+	hDiv2              // T = the case's own target; the 2nd entry of the with-hash is `1 / 0`
+	hDiv3              // … the 3rd entry
+	hFlt2              // 2nd entry `'x'|nosuch`
+	hFlt3              // 3rd entry
+	hFn2               // 2nd entry `boom()` (callback error)
+	hFn3               // 3rd entry
+	hTmplFails         // T fails at render (callback error)
+	hMissing           // T does not exist (no `ignore missing`)
+	hNestedMissing     // T exists and includes a template that does not exist
+	hFailsAfterInclude // T includes the case's own target (that include completes) and fails afterwards
 	nHist
 )
 
@@ -993,8 +996,10 @@ func main() {
 		Rule: "every include program of the grid {with, only, ignore missing, sandboxed}^4 x with-map x name form x target x placement x includer variables x " +
 			"variables set by the included template x loop/block/macro of the included template x tokenizer x position of the includer in an extends chain (none / layout / block override; 1 or 2 extending templates; " +
 			"which of them override, with parent(), the block the includer renders after the include) x same-named blocks of an included template that extends is rendered on a fresh engine and compared with the reference model; " +
+			"history dimension: the same comparison after a render that failed inside an include (10 kinds of failure x {with, with only, with sandboxed, with only sandboxed} x same engine / another engine of the process; " +
+			"the failing render is repeated 3 times and must report an error every time) for every option set and with-map shape of the grid at a reduced set of placements, names and variable sets - the later render must equal the model as if nothing had happened; " +
 			"a case is non-trivial when information could flow in either direction (the includer defines a variable, `with` passes one, the included template sets one, runs a loop " +
-			"or defines a block/macro, also one with the name of a block of the includer's extends chain) or when the target cannot be rendered (missing / failing), which exercises the missing-template handling",
+			"or defines a block/macro, also one with the name of a block of the includer's extends chain) or when the target cannot be rendered (missing / failing), which exercises the missing-template handling; a history case is always non-trivial (the earlier render defined a-d and passed a-d to the failing include)",
 		Assumptions: []string{
 			"the reference model (checks/c11/model.go) is a correct transcription of the property statement",
 			"visibility of outer variables and macros inside macros, option orders other than `ignore missing` `with` `only` `sandboxed`, `with` followed by a non-literal, and the value of loop variables after endfor are not fixed by the statement and are not generated",
